@@ -754,10 +754,16 @@ def _exec_graph(case):
     net = gamma.network(lls)
     shape = ("cyclic" if _cyclic(succ) else "acyclic") + ("" if F == _F0 else "@" + _dsig(F))
     ev = []
-    for start, rng_ in case["queries"]:
-        la = net.find_lanelet_by_id(start)
-        for op, f in (("succ_routes", la.find_lanelet_successors_in_range),
-                      ("pred_routes", la.find_lanelet_predecessors_in_range)):
+
+    def mk(i, lid=None, **kw):
+        cc = [[0, 4 * i], [lens[i - 1], 4 * i]]
+        return _lanelet(lid or i, [[x, y + 1] for x, y in cc], cc, [[x, y - 1] for x, y in cc], F, **kw)
+
+    def ask(la, ck, start, rng_):
+        """both range searches on the object la (caller kind ck); logs the CALLER's own current direct lists"""
+        for op, f, direct in (("succ_routes", la.find_lanelet_successors_in_range, la.successor),
+                              ("pred_routes", la.find_lanelet_predecessors_in_range, la.predecessor)):
+            caller = [int(x) for x in direct]
             st, res = _call(lambda: f(net, rng_))
             out = []
             if st == "ok":
@@ -765,8 +771,53 @@ def _exec_graph(case):
                     out = [[int(x) for x in p] for p in res]
                 except Exception as ex:
                     st = "exc:result:" + type(ex).__name__
-            ev.append({"op": op, "sig": op + "/" + shape, "st": st, "succ": succ, "len": lens, "start": start,
-                       "range": rng_, "res": out, "U": F["U"], "dt": F["dt"]})
+            # sig: graph shape + (own caller: array representation | other callers: the caller kind) - few sigs
+            sig = op + "/" + (shape if ck == "own" else shape.split("@")[0] + "/caller:" + ck.split("-")[0])
+            ev.append({"op": op, "sig": sig,
+                       "st": st, "succ": succ, "len": lens, "start": start, "range": rng_, "res": out,
+                       "U": F["U"], "dt": F["dt"], "caller": caller, "ck": ck})
+
+    kinds = ("edited-add", "edited-remove", "edited-assign", "foreign", "merged")
+    for qi, (start, rng_) in enumerate(case["queries"]):
+        ask(net.find_lanelet_by_id(start), "own", start, rng_)          # (1) the network's own object
+        ck = kinds[(qi + start + n) % len(kinds)]
+        others = [j for j in range(1, n + 1) if j != start]
+        if ck.startswith("edited"):
+            # (2) the network holds deep copies (create_from_lanelet_list); the ORIGINAL's lists are edited afterwards
+            from commonroad.scenario.lanelet import LaneletNetwork
+            orig = [mk(i, predecessor=list(pred[i - 1]), successor=list(succ[i - 1])) for i in range(1, n + 1)]
+            net2 = LaneletNetwork.create_from_lanelet_list(orig, cleanup_ids=False)
+            la = orig[start - 1]
+            if ck == "edited-add":
+                add_s = [j for j in others if j not in la.successor][:1]
+                add_p = [j for j in others if j not in la.predecessor][-1:]
+                for j in add_s:
+                    la.add_successor(j)
+                for j in add_p:
+                    la.add_predecessor(j)
+            elif ck == "edited-remove":
+                for j in list(la.successor)[:1]:
+                    la.remove_successor(j)
+                for j in list(la.predecessor)[-1:]:
+                    la.remove_predecessor(j)
+            else:
+                la.successor = [j for j in others if (j + start) % 2 == 0]
+                la.predecessor = [j for j in others if (j + start) % 3 != 0]
+            net_saved, net = net, net2
+            ask(la, ck, start, rng_)
+            net = net_saved
+        elif ck == "foreign":
+            # (3) a lanelet that is not in the network; its id collides with a network lanelet, its lists differ
+            la = mk(start, successor=[j for j in others if j not in succ[start - 1]],
+                    predecessor=[j for j in others if j not in pred[start - 1]])
+            ask(la, ck, start, rng_)
+        elif succ[start - 1]:
+            # (4) the lanelet merged with its first successor (id = concatenated ids, not in the network)
+            from commonroad.scenario.lanelet import Lanelet
+            b = net.find_lanelet_by_id(succ[start - 1][0])
+            st, m = _call(lambda: Lanelet.merge_lanelets(net.find_lanelet_by_id(start), b))
+            if st == "ok" and net.find_lanelet_by_id(m.lanelet_id) is None:
+                ask(m, ck, int(m.lanelet_id), rng_)
     return ev
 
 
